@@ -34,7 +34,7 @@ def tree():
         "short.py": py("small", 5),
         "long.py": py("mid", 31) + "\n" + py("huge", 61) + "\n" + py("ok", 30) + "\n" + py("mid2", 40),
         "trunc.py": py("before", 33) + "\ndef broken(a,\n    x = (1,\n",
-        "latin.py": ("# caf\xe9\n" + py("latin_fn", 35)).encode("latin-1"),
+        "latin.py": ("# caf\xe9\n" + py("caf\xe9_fn", 35)).encode("latin-1"),  # the NAME is not ASCII: decoding is observable
         ".hidden.py": py("hidden_fn", 61),
         ".hid/inner.py": py("inner_fn", 61),
         "tests/t.py": py("test_fn", 61),
